@@ -134,8 +134,9 @@ def replay(case):
 def strategy(n):
     from hypothesis import strategies as st
     inv = st.sampled_from(INVALID).map(lambda t: dict(t[0], _invalid=sorted(t[1])))
-    call = st.one_of(sh.call_strategy(), sh.call_strategy(moves=False, extras=False),
-                     sh.call_strategy(moves=False, extras=False), inv)
+    from vf.hist import weighted
+    call = weighted((3, sh.call_strategy()), (4, sh.call_strategy(moves=False, extras=False)),
+                    (1, inv))
     v = sh.value_strategy()
     # prefixes that build the interesting state by construction: a completed
     # on/off cycle through one tool API, then the tool started through the other
